@@ -401,7 +401,7 @@ Return(e) ==
                                                   (IF lastexit.flag = 4 THEN (e.flag = 1 /\ e.msgc = "maxfun")   \* a restart that the budget forbids is reported as the budget
                                                    ELSE (e.flag = lastexit.flag /\ e.msgc = lastexit.msgc))>>,
             <<"rt_optimal_value", {"C05", "C06"}, Cfg.wantopt => (sol /\ e.optok)>>,
-            <<"rt_reports_success", {"C05", "C06"}, Cfg.wantopt => (sol /\ e.flag = 0)>>,
+            <<"rt_reports_success", {"C05", "C06"}, (Cfg.wantopt /\ e.wantsucc) => (sol /\ e.flag = 0)>>,   \* (with restarts switched on a run legitimately goes on until the budget ends)
             <<"rt_roundtrip", {"C20"}, sol => e.rt_ok>>,
             <<"rt_inputs_unmodified", {"C19"}, e.inputs_ok>>,
             <<"rt_no_fault_no_error_flag", {"C08"}, TRUE>> >>)
